@@ -14,6 +14,8 @@ import (
 	"github.com/ipld/go-ipld-prime/fluent/qp"
 	cidlink "github.com/ipld/go-ipld-prime/linking/cid"
 	"github.com/ipld/go-ipld-prime/node/basicnode"
+	"github.com/ipld/go-ipld-prime/node/bindnode"
+	"github.com/ipld/go-ipld-prime/schema"
 	selectorparse "github.com/ipld/go-ipld-prime/traversal/selector/parse"
 	"github.com/libp2p/go-libp2p/core/peer"
 	mh "github.com/multiformats/go-multihash"
@@ -106,8 +108,40 @@ func NodeFamily() map[string]datamodel.Node {
 	m["nested"] = nested
 	em, _ := qp.BuildMap(basicnode.Prototype.Any, -1, func(ma datamodel.MapAssembler) {})
 	m["emptymap"] = em
+	// schema-typed values whose representation differs from their type-level view (what applications that define
+	// their vouchers with bindnode hand to the library): as DAG-CBOR data they are their representation
+	m["typed_tuple"] = bindnode.Wrap(&typedDeal{ID: "deal-1", Price: 20}, typedSchema.TypeByName("Deal"))
+	m["typed_renamed"] = bindnode.Wrap(&typedRenamed{A: "x", B: 3}, typedSchema.TypeByName("Renamed"))
 	return m
 }
+
+type typedDeal struct {
+	ID    string
+	Price int64
+}
+
+type typedRenamed struct {
+	A string
+	B int64
+}
+
+var typedSchema = func() *schema.TypeSystem {
+	ts, err := ipld.LoadSchemaBytes([]byte(`
+type Deal struct {
+	ID String
+	Price Int
+} representation tuple
+
+type Renamed struct {
+	A String (rename "zz")
+	B Int (rename "a")
+} representation map
+`))
+	if err != nil {
+		panic(err)
+	}
+	return ts
+}()
 
 // NodeBytes is the canonical dag-cbor encoding of a node (hex), "nil" for nil.
 func NodeBytes(n datamodel.Node) string {
